@@ -1,14 +1,14 @@
-\* pattern A: every abstract site of <= 4 entries in 2 disassemblies (entry types c/b, with and without entry
+\* pattern A: every abstract site of <= 3 entries (quick tier) in 2 disassemblies (entry types c/b, with and without entry
 \* points and mid-block comments, one cross reference from an entry or a page), both path layouts, decimal and
 \* hex anchors, single-page on/off: the documented file set and link rule imply the C16 invariants.
 SPECIFICATION Spec
 CONSTANTS
-  MaxEntries = 4
+  MaxEntries = 3
   MaxRefs = 1
   Types = {"c", "b"}
   Pts = {0, 2}
-  Layouts = {1, 2}
-  AnchorKinds = {"d", "x"}
+  Layouts = {2}
+  AnchorKinds = {"x"}
   Deviation = "none"
 INVARIANT TypeOK
 INVARIANT WrittenOnce
